@@ -65,6 +65,11 @@ type Chain struct {
 	AppHash  []byte
 	Time     time.Time
 	enc      cosmoscmd.EncodingConfig
+	DB       dbm.DB
+	// useCheck: after a restart from the database the working branch is the check state of the
+	// re-opened application (the deliver state only exists between BeginBlock and Commit)
+	useCheck bool
+	Restarts int
 }
 
 var prefixesSet = false
@@ -213,7 +218,7 @@ func NewChain(cfg GenesisCfg) *Chain {
 		db = dbm.NewMemDB()
 	}
 	app, enc := NewApp(db, true)
-	c := &Chain{App: app, Cfg: cfg, enc: enc}
+	c := &Chain{App: app, Cfg: cfg, enc: enc, DB: db}
 	for i := 0; i < cfg.NumAccounts; i++ {
 		c.Accounts = append(c.Accounts, MakeAccount(fmt.Sprintf("a%d", i)))
 	}
@@ -247,5 +252,22 @@ func (c *Chain) BlockTime() time.Time { return c.Time.Add(time.Duration(c.Height
 // Ctx returns a deliver-state context for the current height/seed (Mode K).
 func (c *Chain) Ctx() sdk.Context {
 	hdr := tmproto.Header{ChainID: ChainID, Height: c.Height, AppHash: c.AppHash, Time: c.BlockTime()}
-	return c.App.BaseApp.NewContext(false, hdr).WithBlockHeight(c.Height)
+	return c.App.BaseApp.NewContext(c.useCheck, hdr).WithBlockHeight(c.Height).WithIsCheckTx(false)
+}
+
+// Restart is a real crash-restart from the database: the working branch is flushed into the root
+// multistore and committed, the application object (keepers, and whatever they cache in memory) is
+// dropped, and a new application is opened over the same database with LoadLatestVersion. Package-level
+// variables survive inside one process; the caller resets the known one through the verif hook, and the
+// twin run executes in another process.
+func (c *Chain) Restart() {
+	ctx := c.Ctx()
+	if cms, ok := ctx.MultiStore().(sdk.CacheMultiStore); ok {
+		cms.Write()
+	}
+	c.App.CommitMultiStore().Commit()
+	app, enc := NewApp(c.DB, true)
+	c.App, c.enc = app, enc
+	c.useCheck = true
+	c.Restarts++
 }
